@@ -676,11 +676,15 @@ def path_discharge(F, site):
                         w = w2
                     if int_of(w) == 0:
                         continue
-                    if not (w[0] == 'field' and w[2] == '0' and w[1][0] == 'downcast' and w[1][2] == 'Some' and w[1][1][0] == 'call'
-                            and w[1][1][1].endswith(('str>::find', 'str>::rfind')) and w[1][1][2] and w[1][1][2][0] == recv):
+                    fc = None
+                    if w[0] == 'field' and w[2] == '0' and w[1][0] == 'downcast' and w[1][2] == 'Some':
+                        fc = w[1][1]
+                    elif w[0] == 'okval':
+                        fc = w[1]
+                    if not (fc is not None and fc[0] == 'call' and fc[1].endswith(('str>::find', 'str>::rfind')) and fc[2] and fc[2][0] == recv):
                         return None
-                    fb = w[1][1][3] if len(w[1][1]) > 3 else None
-                    fpos = max((p.callpos[k_] for k_, cl in enumerate(p.calls) if cl[0] == fb and cl[1] == w[1][1][1] and p.callpos[k_] < pos), default=None)
+                    fb = fc[3] if len(fc) > 3 else None
+                    fpos = max((p.callpos[k_] for k_, cl in enumerate(p.calls) if cl[0] == fb and cl[1] == fc[1] and p.callpos[k_] < pos), default=None)
                     if fpos is None:
                         return None
                     # the text variable is not assigned between the search and the slicing
